@@ -164,6 +164,7 @@ func checkC12(c *Ctx) {
 	}
 	checkConstruction(c, pk)
 	checkLocationNodes(c, pk)
+	checkTypedNilArgs(c, "C12.R1.typed-nil", pk, 12)
 
 	// ---- R2 recursion guard
 	checkRecursionGuard(c, "C12.R2.recursion-guard", pk)
